@@ -53,11 +53,6 @@ defaults `0 / maxint` for a positive step, `maxint / minint` for a negative one.
 def convBounds (lo hi : Option Int) (step : Int) : Int × Int :=
   if step > 0 then (lo.getD 0, hi.getD maxint) else (lo.getD maxint, hi.getD minint)
 
-/-- Bounds eager mode feeds to `Slice` (`Tensor.__getitem__`): `s.start or 0`,
-`shape[axis]`; resp. `shape-1`, `-(shape+1)` for a negative step. -/
-def eagerBounds (d : Int) (lo hi : Option Int) (step : Int) : Int × Int :=
-  if step > 0 then (lo.getD 0, hi.getD d) else (lo.getD (d - 1), hi.getD (-(d + 1)))
-
 /-- Number of elements of a normalised `(start, stop, step)` range (`PySlice_AdjustIndices`'
 return value / ONNX output dim: `ceil((stop-start)/step)` clipped at 0). -/
 def sliceLen (start stop step : Int) : Nat :=
@@ -66,6 +61,16 @@ def sliceLen (start stop step : Int) : Nat :=
   else if step < 0 then
     (if stop < start then ((start - stop - 1) / (-step) + 1).toNat else 0)
   else 0
+
+/-- Bounds eager mode feeds to `Slice` (`Tensor.__getitem__`, after the repair of the eager half
+of finding D22): the slice is normalised with `slice.indices(d)` — which is `pyAdjust` —, then
+rewritten in ONNX Slice's conventions: an empty selection becomes `0:0`, and the stop `-1` of a
+negative step ("before the first element") becomes `-(d+1)`. -/
+def eagerBounds (d : Int) (lo hi : Option Int) (step : Int) : Int × Int :=
+  let p := pyAdjust d lo hi step
+  if sliceLen p.1 p.2 step = 0 then (0, 0)
+  else if p.2 < 0 then (p.1, -(d + 1))
+  else p
 
 /-! ## List level -/
 
@@ -391,14 +396,17 @@ def Comp.isEagerSliced : Comp → Bool
   | .slice lo hi st => !(decide (lo = .none ∧ hi = .none ∧ st = .none))
   | _ => false
 
+def Comp.stepVal : Comp → Int
+  | .slice _ _ st => (st.val?).getD 1
+  | _ => 1
+
 def Comp.scalarVal : Comp → Int
   | .int i | .tScalar i => i
   | _ => 0
 
 /-- What eager mode registers for a component at axis `j` of extent `d`: a (non-trivial) slice
-gives `[start, stop, axis, step]` with the shape-based defaults (`s.start or 0`: a start of 0 and
-an omitted start coincide; step 0 falls into the code's `else` branch and is then rejected by
-Slice itself); a rank-0 index `i` gives `i:i+1:1`. -/
+gives `[start, stop, axis, step]` with `eagerBounds` (a zero step never gets here: `planEager`
+refuses it first, as `slice.indices` does); a rank-0 index `i` gives `i:i+1:1`. -/
 def entryOfEager (c : Comp) (j : Nat) (d : Nat) : Option SliceEntry :=
   match c with
   | .slice lo hi st =>
@@ -424,6 +432,8 @@ indices are gathered last, in ascending axis order, each with
 (a 1-D Gather keeps its axis, so the order among them does not matter). -/
 def planEager (comps : List Comp) (shape : List Nat) : Except Err Plan :=
   if comps.length > shape.length then .error .valueError
+  -- `slice.indices` raises ValueError("slice step cannot be zero") while the index is being read
+  else if comps.any (fun c => c.isEagerSliced && c.stepVal == 0) then .error .valueError
   else if (eSlicedOf comps).isEmpty && (eScalarsOf comps).isEmpty && (eVecsOf comps).isEmpty then
     .ok [.identity]
   else
